@@ -18,6 +18,8 @@ from gen import progs
 from translate import c02_blockvars
 
 KNOWN_FOR_TARGET = 'for-target-killed-on-zero-iterations'
+KNOWN_PREV_ITER = 'get-state-reads-variable-bound-only-by-previous-iteration'
+_last_exc = {}
 
 
 def generate():
@@ -173,6 +175,33 @@ def gen_pure(rnd, mutation=False):
     return '\n'.join(out)
 
 
+def _remember(e):
+    tb = e.__traceback__
+    inner = None
+    while tb is not None:
+        inner = tb.tb_frame.f_code.co_name
+        tb = tb.tb_next
+    _last_exc.clear()
+    _last_exc.update({'type': type(e).__name__, 'name': getattr(e, 'name', None), 'frame': inner})
+
+
+def is_prev_iteration_finding(src, b):
+    """the converted function raised NameError/UnboundLocalError from inside a generated get_state function, for a
+    variable that the program assigns inside a loop body (it is local to the generated loop body function and, on
+    the first iteration, still unbound when the tracing backend reads the state of a statement nested in the body)"""
+    if b[0] != 'raise' or b[1] != 'NameError' or not _last_exc or not str(_last_exc.get('frame', '')).startswith('get_state'):
+        return False
+    v = _last_exc.get('name')
+    if not v:
+        return False
+    for loop in ast.walk(ast.parse(src)):
+        if isinstance(loop, (ast.For, ast.While)):
+            for n in ast.walk(loop):
+                if isinstance(n, ast.Name) and n.id == v and isinstance(n.ctx, ast.Store):
+                    return True
+    return False
+
+
 def closure_programs(rnd):
     """local functions closing over a variable that a later control statement assigns, reached directly, through a
     sibling closure, a two-hop chain or an alias; the variable is read after the statement only through them"""
@@ -229,12 +258,14 @@ def run_pure(fn, mutation=False):
         except RecursionError:
             return ('raise', 'RecursionError')
         except BaseException as e:  # noqa
+            _remember(e)
             return ('raise', convrun.canon_exc(type(e).__name__), repr(holder[1]), holder[0].v, holder[0].u)
     try:
         return ('return', repr(fn(1, 2, 3)))
     except RecursionError:
         return ('raise', 'RecursionError')
     except BaseException as e:  # noqa
+        _remember(e)
         return ('raise', convrun.canon_exc(type(e).__name__))
 
 
@@ -311,6 +342,9 @@ def check(run):
             if a != b:
                 if a[0] == 'raise':
                     continue     # the original itself fails (e.g. TypeError): outside "computes what the original computes"
+                if is_prev_iteration_finding(src, b):
+                    run.violation('get_state raised', {}, classify=KNOWN_PREV_ITER)
+                    continue
                 failures.append(('tracing backend result differs: original %r, converted %r' % (a, b), src))
             if len(run.samples) < 3 and ncalls >= 3:
                 run.sample({'program': src, 'result': a, 'operator_calls': ncalls})
